@@ -27,18 +27,28 @@ Definition cell_at (t : list (list cell)) (i j : nat) : cell := nth j (nth i t [
 (** max of a list of scores (numpy's max over -inf-padded floats) *)
 Definition emaxl (l : list ez) : ez := fst (pick dead_entry (map (fun v => (v, [])) l)).
 
-Definition fwd_val (P : params) (xs ys : list Z) (k j : nat) (s : st) : ez :=
-  fst (cget (cell_at (table P false xs ys) k j) s).
+(** (the tables are arguments so that an evaluation builds each of them once) *)
+Definition fwd_of (tf : list (list cell)) (k j : nat) (s : st) : ez := fst (cget (cell_at tf k j) s).
 
-Definition bwd_val (P : params) (xs ys : list Z) (k j : nat) (s : st) : ez :=
-  let c := cell_at (table (mirror P) false (rev xs) (rev ys)) (length xs - k) (length ys - j) in
+Definition bwd_of (P : params) (tb : list (list cell)) (m n k j : nat) (s : st) : ez :=
+  let c := cell_at tb (m - k) (n - j) in
   emaxl (map (fun prev => eplus (fst (cget c prev)) (match prev with SB => te P s | _ => tr P s prev end))
              source_states).
 
+Definition fwd_val (P : params) (xs ys : list Z) (k j : nat) (s : st) : ez :=
+  fwd_of (table P false xs ys) k j s.
+
+Definition bwd_val (P : params) (xs ys : list Z) (k j : nat) (s : st) : ez :=
+  bwd_of P (table (mirror P) false (rev xs) (rev ys)) (length xs) (length ys) k j s.
+
 (** [middle_row], flattened: j = 0..|ys|, state = BEGIN, X, Y, M *)
 Definition middle (P : params) (xs ys : list Z) (k : nat) : list ez :=
-  flat_map (fun j => map (fun s => eplus (fwd_val P xs ys k j s) (bwd_val P xs ys k j s)) source_states)
-           (seq 0 (S (length ys))).
+  let tf := table P false xs ys in
+  let tb := table (mirror P) false (rev xs) (rev ys) in
+  let m := length xs in
+  let n := length ys in
+  flat_map (fun j => map (fun s => eplus (fwd_of tf k j s) (bwd_of P tb m n k j s)) source_states)
+           (seq 0 (S n)).
 
 Definition hirsch_score (P : params) (xs ys : list Z) (k : nat) : ez := emaxl (middle P xs ys k).
 
@@ -60,8 +70,12 @@ Definition with_begin (P : params) (s : st) : params :=
      em := em P; gx := gx P; gy := gy P |}.
 
 Definition middle_idx (P : params) (xs ys : list Z) (k : nat) : list (nat * st * ez) :=
-  flat_map (fun j => map (fun s => (j, s, eplus (fwd_val P xs ys k j s) (bwd_val P xs ys k j s))) source_states)
-           (seq 0 (S (length ys))).
+  let tf := table P false xs ys in
+  let tb := table (mirror P) false (rev xs) (rev ys) in
+  let m := length xs in
+  let n := length ys in
+  flat_map (fun j => map (fun s => (j, s, eplus (fwd_of tf k j s) (bwd_of P tb m n k j s))) source_states)
+           (seq 0 (S n)).
 
 Definition argmax_first (l : list (nat * st * ez)) : nat * st * ez :=
   fold_left (fun best c => if egtb (snd c) (snd best) then c else best) l (0%nat, SB, None).
